@@ -373,7 +373,8 @@ theorem entryAllowed_written (a b : String × YV) (ha : entryAllowed memKeyTypes
 
 /-- **Allowed keys and types** (`qua_write_keys`): the document written for a chart whose key-sound cells are
 lists (hypothesis forced by open finding D08: `converted_chart_counterexample`) and whose metadata attributes have
-their declared types (hypothesis forced by finding C06-N1: `default_meta_counterexample`) uses only the keys the
+their declared types (`string_isv_counterexample`: a string under `InitialScrollVelocity`, as the dataclass default was
+before the repair of D29, breaks it; `default_meta_typed`: default-constructed metadata satisfies it) uses only the keys the
 format defines, each with a value of the defined type — for every number of rows, lanes, times. -/
 theorem qua_write_keys (c : Chart) (d : Doc) (hk : ksLists c = true) (hm : metaTyped c.info = true)
     (hw : write c = .ok d) : docAllowed d = true := by
@@ -403,13 +404,28 @@ theorem converted_chart_counterexample :
       (fun d => secAllowed hitObjectKeys d.hitObjects) = some false := by
   decide +kernel
 
-/-- C06-N1: `initial_scroll_velocity: float = ""` — a default-constructed chart is written with a string where
-the format defines a number; the hypothesis `metaTyped` of `qua_write_keys` cannot be dropped. -/
-theorem default_meta_counterexample :
-    metaTyped metaTable = false ∧
-    (write ⟨metaTable, [], [], [], []⟩).toOption.map docAllowed = some false ∧
-    metaTyped (metaTable.map (fun kv => if kv.1 = "InitialScrollVelocity" then (kv.1, YV.flt 1) else kv)) = true := by
+/-- the metadata record `QuaMapMeta` had before the repair of D29 (`initial_scroll_velocity: float = ""`) -/
+def stringIsvMeta : Rec :=
+  metaTable.map (fun kv => if kv.1 = "InitialScrollVelocity" then (kv.1, YV.str "") else kv)
+
+/-- D29 (fixed): a metadata record with a *string* under `InitialScrollVelocity` is written with a string where the
+format defines a number — the hypothesis `metaTyped` of `qua_write_keys` cannot be dropped. (Hand-written record:
+this is what the dataclass default was before commit 0d2a2c1; the reverse patch brings it back.) -/
+theorem string_isv_counterexample :
+    metaTyped stringIsvMeta = false ∧
+    (write ⟨stringIsvMeta, [], [], [], []⟩).toOption.map docAllowed = some false := by
   decide +kernel
+
+/-- since D29's repair the dataclass defaults (`metaTable`, tied to the source by `consts_tie`) have their
+declared types … -/
+theorem default_meta_typed : metaTyped metaTable = true ∧ MetaOk metaTable := by
+  refine ⟨by decide +kernel, by decide +kernel, by decide +kernel⟩
+
+/-- … so `qua_write_keys` holds for every chart with default-constructed metadata whose key sounds are lists. -/
+theorem qua_write_keys_default (hits : List Hit) (holds : List Hold) (bpms : List Bpm) (svs : List Sv) (d : Doc)
+    (hk : ksLists ⟨metaTable, hits, holds, bpms, svs⟩ = true)
+    (hw : write ⟨metaTable, hits, holds, bpms, svs⟩ = .ok d) : docAllowed d = true :=
+  qua_write_keys _ d hk default_meta_typed.1 hw
 
 /-! non-vacuity of `qua_read_write` / `qua_write_keys`: a chart with a hit, a hold, two tempo points, a scroll
 velocity, fractional and negative times, two tags -/
@@ -620,6 +636,128 @@ example : (read ⟨[], some [[("EndTime", .int 500), ("Lane", .int 3), ("KeySoun
 
 example : objsDeclared ⟨[], some [[("EndTime", .int 500), ("Lane", .int 3), ("KeySounds", .ks [])]], some [], some []⟩ = true := by
   decide +kernel
+
+
+/-! ## composites: the written document denotes the quantized chart; write after read -/
+
+theorem objOk_writeHit (h : Hit) (hk : (h.keysounds != .nan) = true) : objOk (writeHit h) = true := by
+  cases hks : h.keysounds with
+  | nan => simp [hks] at hk
+  | list l => simp [objOk, writeHit, Rec.get, List.lookup, numLike, ksYV, hks]
+
+theorem objOk_writeHold (h : Hold) (hk : (h.keysounds != .nan) = true) : objOk (writeHold h) = true := by
+  cases hks : h.keysounds with
+  | nan => simp [hks] at hk
+  | list l => simp [objOk, writeHold, Rec.get, List.lookup, numLike, ksYV, hks]
+
+/-- every object of a written document declares its times, lane and key sounds (when no key-sound cell is NaN) -/
+theorem objsDeclared_write (c : Chart) (d : Doc) (hk : ksLists c = true) (hw : write c = .ok d) :
+    objsDeclared d = true := by
+  unfold write at hw
+  cases hwm : writeMeta c.info with
+  | error e => rw [hwm] at hw; simp [bind, Except.bind] at hw
+  | ok m' =>
+    rw [hwm] at hw
+    simp only [bind, Except.bind, Except.ok.injEq] at hw
+    subst hw
+    simp only [ksLists, Bool.and_eq_true, List.all_eq_true] at hk
+    simp only [objsDeclared, Option.getD_some, List.all_append, List.all_map, Bool.and_eq_true, List.all_eq_true]
+    exact ⟨fun h hh => objOk_writeHit h (hk.1 h hh), fun h hh => objOk_writeHold h (hk.2 h hh)⟩
+
+/-- **The written document denotes the chart, times moved by less than 1 ms** (`qua_write_denotes`): for every
+chart with well-formed metadata and list-valued key sounds, the by-the-book denotation of the written document is
+exactly `quantize c` (and `closeChart c (quantize c)` by `closeChart_quantize`). -/
+theorem qua_write_denotes (c : Chart) (d : Doc) (hm : MetaOk c.info) (hk : ksLists c = true)
+    (hw : write c = .ok d) : denote d = .ok (quantize c) ∧ closeChart c (quantize c) = true := by
+  have h1 := qua_read_write c hm
+  rw [hw] at h1
+  simp only [bind, Except.bind] at h1
+  rw [← qua_read_defaults d (objsDeclared_write c d hk hw)]
+  exact ⟨h1, closeChart_quantize c⟩
+
+theorem mapE_mem {α β} (f : α → Except Err β) :
+    ∀ (l : List α) (l' : List β), mapE f l = .ok l' → ∀ b ∈ l', ∃ a ∈ l, f a = .ok b
+  | [], l', h, b, hb => by simp [mapE] at h; subst h; simp at hb
+  | a :: t, l', h, b, hb => by
+    simp only [mapE, bind, Except.bind] at h
+    cases hfa : f a with
+    | error e => rw [hfa] at h; simp at h
+    | ok x =>
+      rw [hfa] at h
+      cases hft : mapE f t with
+      | error e => rw [hft] at h; simp at h
+      | ok r =>
+        rw [hft] at h
+        simp at h
+        subst h
+        simp only [List.mem_cons] at hb
+        rcases hb with rfl | hb
+        · exact ⟨a, by simp, hfa⟩
+        · obtain ⟨a', ha', hfa'⟩ := mapE_mem f t r hft b hb
+          exact ⟨a', by simp [ha'], hfa'⟩
+
+theorem mapE_keys (G : String × YV → Except Err YV) :
+    ∀ (tbl m : Rec), mapE (fun kd => (G kd).map (fun v => (kd.1, v))) tbl = .ok m → m.map Prod.fst = tbl.map Prod.fst
+  | [], m, h => by simp [mapE] at h; subst h; rfl
+  | kd :: t, m, h => by
+    simp only [mapE, bind, Except.bind] at h
+    cases hft : mapE (fun kd => (G kd).map (fun v => (kd.1, v))) t with
+    | error e =>
+      rw [hft] at h
+      cases hg : G kd <;> simp [hg, Except.map] at h
+    | ok r =>
+      rw [hft] at h
+      cases hg : G kd with
+      | error e => simp [hg, Except.map] at h
+      | ok v =>
+        simp [hg, Except.map] at h
+        subst h
+        simp [mapE_keys G t r hft]
+
+/-- the metadata the reader produces is well formed: the 21 attributes in order, tags non-empty and space-free -/
+theorem readMeta_metaOk (d m : Rec) (h : readMeta d = .ok m) : MetaOk m := by
+  unfold readMeta at h
+  have hkeys : m.map Prod.fst = metaKeys := mapE_keys (fun kd => readMetaVal d kd.1 kd.2) metaTable m h
+  refine ⟨by simp [metaKeysOk, hkeys], ?_⟩
+  have hin : tagsKey ∈ m.map Prod.fst := by rw [hkeys]; decide
+  obtain ⟨kv, hkv, hk⟩ := List.mem_map.mp hin
+  obtain ⟨kd, _, hkd⟩ := mapE_mem _ metaTable m h kv hkv
+  have hl : m.lookup tagsKey = some kv.2 := by
+    apply lookup_of_mem_nodup m tagsKey kv.2 (by rw [hkeys]; exact metaKeys_nodup)
+    rw [← hk]; exact hkv
+  unfold tagsOk Rec.get
+  rw [hl]
+  cases hr : readMetaVal d kd.1 kd.2 with
+  | error e => rw [hr] at hkd; simp [Except.map] at hkd
+  | ok v =>
+    rw [hr] at hkd
+    simp only [Except.map, Except.ok.injEq] at hkd
+    have h1 : kd.1 = tagsKey := by rw [← hk, ← hkd]
+    have h2 : kv.2 = v := by rw [← hkd]
+    rw [h2]
+    unfold readMetaVal at hr
+    rw [if_pos h1] at hr
+    cases hg : d.get kd.1 with
+    | none => rw [hg] at hr; simp at hr; subst hr; exact tagsOf_ok ""
+    | some w =>
+      rw [hg] at hr
+      cases w with
+      | str s => simp at hr; subst hr; exact tagsOf_ok s
+      | _ => simp at hr
+
+theorem read_info (d : Doc) (c : Chart) (h : read d = .ok c) : readMeta d.info = .ok c.info := by
+  unfold read at h
+  simp only [bind, Except.bind] at h
+  repeat' split at h
+  all_goals first
+    | (simp only [Except.ok.injEq] at h; subst h; assumption)
+    | (exact absurd h (by simp))
+
+/-- **Write after read** (`qua_write_read`): whatever document the reader accepts, writing the chart it produced
+and reading again yields that chart quantized — no hypothesis on tags or metadata is needed, the reader's output
+always satisfies `MetaOk`. -/
+theorem qua_write_read (d : Doc) (c : Chart) (h : read d = .ok c) : (write c >>= read) = .ok (quantize c) :=
+  qua_read_write c (readMeta_metaOk d.info c.info (read_info d c h))
 
 
 end Reamber.Qua
